@@ -19,6 +19,8 @@ CONSTANTS Reqs,          \* request ids
           MaxLS,         \* bound on loadedShard objects created
           MaxDel,        \* number of DeleteCollectionShards calls
           FixLockOrder, GuardUnstore,
+          MaxOpenFail,   \* how often opening the shard file may fail (damaged file, no descriptors)
+          StoreBeforeOpen, \* FALSE = the code as pinned; TRUE = the entry is put into the store before the open
           RecordHist     \* TRUE only for simulation (behaviour extraction)
 
 LS == 1..MaxLS
@@ -37,12 +39,13 @@ VARIABLES
   dPc, dLs, dRound,
   fileOpen,    \* number of open database handles on the shard file
   dirExists,
+  fails,       \* failed opens so far
   hist         \* history of actions (excluded from the VIEW)
 
 vars == <<shardLock, store, nextLS, lsOpen, lsReaders, lsWriter, lsWaiting, clPc, rPc, rLs,
-          dPc, dLs, dRound, fileOpen, dirExists, hist>>
+          dPc, dLs, dRound, fileOpen, dirExists, fails, hist>>
 view == <<shardLock, store, nextLS, lsOpen, lsReaders, lsWriter, lsWaiting, clPc, rPc, rLs,
-          dPc, dLs, dRound, fileOpen, dirExists>>
+          dPc, dLs, dRound, fileOpen, dirExists, fails>>
 
 Rec(a, x) == hist' = IF RecordHist THEN Append(hist, <<a, x>>) ELSE hist
 
@@ -53,7 +56,7 @@ Init ==
   /\ clPc = [l \in LS |-> "none"]
   /\ rPc = [r \in Reqs |-> "start"] /\ rLs = [r \in Reqs |-> None]
   /\ dPc = "start" /\ dLs = None /\ dRound = 0
-  /\ fileOpen = 0 /\ dirExists = FALSE
+  /\ fileOpen = 0 /\ dirExists = FALSE /\ fails = 0
   /\ hist = <<>>
 
 ---------------------------------------------------------------------------
@@ -64,15 +67,29 @@ ReqLoad(r) ==
   /\ rPc[r] = "start" /\ shardLock = "free"
   /\ IF store # None
      THEN /\ rLs' = [rLs EXCEPT ![r] = store]
-          /\ UNCHANGED <<store, nextLS, lsOpen, clPc, fileOpen, dirExists>>
+          /\ rPc' = [rPc EXCEPT ![r] = "rlock"]
+          /\ Rec("ReqLoad", r)
+          /\ UNCHANGED <<store, nextLS, lsOpen, clPc, fileOpen, dirExists, fails>>
      ELSE /\ nextLS <= MaxLS
-          /\ store' = nextLS /\ rLs' = [rLs EXCEPT ![r] = nextLS]
-          /\ lsOpen' = [lsOpen EXCEPT ![nextLS] = TRUE]
-          /\ clPc' = [clPc EXCEPT ![nextLS] = "select"]
-          /\ fileOpen' = fileOpen + 1 /\ dirExists' = TRUE
-          /\ nextLS' = nextLS + 1
-  /\ rPc' = [rPc EXCEPT ![r] = "rlock"]
-  /\ Rec("ReqLoad", r)
+          /\ \/ \* mkdir + open + spawn the cleanup goroutine
+                /\ store' = nextLS /\ rLs' = [rLs EXCEPT ![r] = nextLS]
+                /\ lsOpen' = [lsOpen EXCEPT ![nextLS] = TRUE]
+                /\ clPc' = [clPc EXCEPT ![nextLS] = "select"]
+                /\ fileOpen' = fileOpen + 1 /\ dirExists' = TRUE
+                /\ nextLS' = nextLS + 1
+                /\ rPc' = [rPc EXCEPT ![r] = "rlock"]
+                /\ Rec("ReqLoad", r)
+                /\ UNCHANGED fails
+             \/ \* the open fails: the call returns the error; nothing may stay behind
+                /\ fails < MaxOpenFail
+                /\ fails' = fails + 1 /\ dirExists' = TRUE
+                /\ rPc' = [rPc EXCEPT ![r] = "err"]
+                /\ IF StoreBeforeOpen
+                   THEN \* a dead entry (no shard, no cleanup goroutine) is left in the store
+                        /\ store' = nextLS /\ nextLS' = nextLS + 1
+                   ELSE UNCHANGED <<store, nextLS>>
+                /\ Rec("ReqLoadFail", r)
+                /\ UNCHANGED <<rLs, lsOpen, clPc, fileOpen>>
   /\ UNCHANGED <<shardLock, lsReaders, lsWriter, lsWaiting, dPc, dLs, dRound>>
 
 \* [req.rlock]  ls.mu.RLock(); nil check
@@ -83,7 +100,7 @@ ReqRLock(r) ==
        /\ lsReaders' = [lsReaders EXCEPT ![l] = @ \cup {r}]
        /\ rPc' = [rPc EXCEPT ![r] = IF lsOpen[l] THEN "inF" ELSE "errClosed"]
   /\ Rec("ReqRLock", r)
-  /\ UNCHANGED <<shardLock, store, nextLS, lsOpen, lsWriter, lsWaiting, clPc, rLs, dPc, dLs, dRound, fileOpen, dirExists>>
+  /\ UNCHANGED <<shardLock, store, nextLS, lsOpen, lsWriter, lsWaiting, clPc, rLs, dPc, dLs, dRound, fileOpen, dirExists, fails>>
 
 \* [req.run / return]  f(ls.shard) returns (or the clean error), RUnlock()
 ReqDone(r) ==
@@ -91,7 +108,7 @@ ReqDone(r) ==
   /\ lsReaders' = [lsReaders EXCEPT ![rLs[r]] = @ \ {r}]
   /\ rPc' = [rPc EXCEPT ![r] = IF rPc[r] = "inF" THEN "ok" ELSE "err"]
   /\ Rec("ReqDone", r)
-  /\ UNCHANGED <<shardLock, store, nextLS, lsOpen, lsWriter, lsWaiting, clPc, rLs, dPc, dLs, dRound, fileOpen, dirExists>>
+  /\ UNCHANGED <<shardLock, store, nextLS, lsOpen, lsWriter, lsWaiting, clPc, rLs, dPc, dLs, dRound, fileOpen, dirExists, fails>>
 
 ---------------------------------------------------------------------------
 (* Cleanup goroutine of ls l                                               *)
@@ -100,14 +117,14 @@ ReqDone(r) ==
 ClTimer(l) ==
   /\ clPc[l] = "select" /\ clPc' = [clPc EXCEPT ![l] = "fired"]
   /\ Rec("ClTimer", l)
-  /\ UNCHANGED <<shardLock, store, nextLS, lsOpen, lsReaders, lsWriter, lsWaiting, rPc, rLs, dPc, dLs, dRound, fileOpen, dirExists>>
+  /\ UNCHANGED <<shardLock, store, nextLS, lsOpen, lsReaders, lsWriter, lsWaiting, rPc, rLs, dPc, dLs, dRound, fileOpen, dirExists, fails>>
 
 \* [cl.fired]  ls.mu.Lock() is requested: from now on new readers wait
 ClLockReq(l) ==
   /\ clPc[l] = "fired" /\ clPc' = [clPc EXCEPT ![l] = "wantMu"]
   /\ lsWaiting' = [lsWaiting EXCEPT ![l] = @ \cup {"cl"}]
   /\ Rec("ClLockReq", l)
-  /\ UNCHANGED <<shardLock, store, nextLS, lsOpen, lsReaders, lsWriter, rPc, rLs, dPc, dLs, dRound, fileOpen, dirExists>>
+  /\ UNCHANGED <<shardLock, store, nextLS, lsOpen, lsReaders, lsWriter, rPc, rLs, dPc, dLs, dRound, fileOpen, dirExists, fails>>
 
 ClLock(l) ==
   /\ clPc[l] = "wantMu" /\ lsWriter[l] = "none" /\ lsReaders[l] = {}
@@ -115,7 +132,7 @@ ClLock(l) ==
   /\ lsWaiting' = [lsWaiting EXCEPT ![l] = @ \ {"cl"}]
   /\ clPc' = [clPc EXCEPT ![l] = "haveMu"]
   /\ Rec("ClLock", l)
-  /\ UNCHANGED <<shardLock, store, nextLS, lsOpen, lsReaders, rPc, rLs, dPc, dLs, dRound, fileOpen, dirExists>>
+  /\ UNCHANGED <<shardLock, store, nextLS, lsOpen, lsReaders, rPc, rLs, dPc, dLs, dRound, fileOpen, dirExists, fails>>
 
 \* nil check, (backup,) Close(), ls.shard = nil
 ClClose(l) ==
@@ -123,12 +140,12 @@ ClClose(l) ==
   /\ IF ~lsOpen[l]
      THEN /\ lsWriter' = [lsWriter EXCEPT ![l] = "none"]
           /\ clPc' = [clPc EXCEPT ![l] = "done"]
-          /\ UNCHANGED <<lsOpen, fileOpen>>
+          /\ UNCHANGED <<lsOpen, fileOpen, fails>>
      ELSE /\ lsOpen' = [lsOpen EXCEPT ![l] = FALSE] /\ fileOpen' = fileOpen - 1
           /\ lsWriter' = IF FixLockOrder THEN [lsWriter EXCEPT ![l] = "none"] ELSE lsWriter
           /\ clPc' = [clPc EXCEPT ![l] = "wantSL"]
   /\ Rec("ClClose", l)
-  /\ UNCHANGED <<shardLock, store, nextLS, lsReaders, lsWaiting, rPc, rLs, dPc, dLs, dRound, dirExists>>
+  /\ UNCHANGED <<shardLock, store, nextLS, lsReaders, lsWaiting, rPc, rLs, dPc, dLs, dRound, dirExists, fails>>
 
 \* [cl.lockStore]  shardLock.Lock(); delete(store, dir); Unlock(); (deferred ls.mu.Unlock())
 ClUnstore(l) ==
@@ -137,7 +154,7 @@ ClUnstore(l) ==
   /\ lsWriter' = IF FixLockOrder THEN lsWriter ELSE [lsWriter EXCEPT ![l] = "none"]
   /\ clPc' = [clPc EXCEPT ![l] = "done"]
   /\ Rec("ClUnstore", l)
-  /\ UNCHANGED <<shardLock, nextLS, lsOpen, lsReaders, lsWaiting, rPc, rLs, dPc, dLs, dRound, fileOpen, dirExists>>
+  /\ UNCHANGED <<shardLock, nextLS, lsOpen, lsReaders, lsWaiting, rPc, rLs, dPc, dLs, dRound, fileOpen, dirExists, fails>>
 
 ---------------------------------------------------------------------------
 (* DeleteCollectionShards                                                  *)
@@ -148,14 +165,14 @@ DelStart ==
   /\ shardLock' = "del" /\ dLs' = store
   /\ dPc' = IF ~dirExists THEN "unlock" ELSE IF store # None THEN "atLs" ELSE "remove"
   /\ Rec("DelStart", 0)
-  /\ UNCHANGED <<store, nextLS, lsOpen, lsReaders, lsWriter, lsWaiting, clPc, rPc, rLs, dRound, fileOpen, dirExists>>
+  /\ UNCHANGED <<store, nextLS, lsOpen, lsReaders, lsWriter, lsWaiting, clPc, rPc, rLs, dRound, fileOpen, dirExists, fails>>
 
 \* [del.lockLs]  ls.mu.Lock() requested
 DelLockReq ==
   /\ dPc = "atLs" /\ dPc' = "wantMu"
   /\ lsWaiting' = [lsWaiting EXCEPT ![dLs] = @ \cup {"del"}]
   /\ Rec("DelLockReq", 0)
-  /\ UNCHANGED <<shardLock, store, nextLS, lsOpen, lsReaders, lsWriter, clPc, rPc, rLs, dLs, dRound, fileOpen, dirExists>>
+  /\ UNCHANGED <<shardLock, store, nextLS, lsOpen, lsReaders, lsWriter, clPc, rPc, rLs, dLs, dRound, fileOpen, dirExists, fails>>
 
 \* Lock acquired; signal the cleanup goroutine (non-blocking send succeeds only
 \* if it sits in its select), Close(), ls.shard = nil, Unlock(); delete(store, dir)
@@ -165,24 +182,24 @@ DelLock ==
   /\ IF lsOpen[dLs]
      THEN /\ lsOpen' = [lsOpen EXCEPT ![dLs] = FALSE] /\ fileOpen' = fileOpen - 1
           /\ clPc' = IF clPc[dLs] = "select" THEN [clPc EXCEPT ![dLs] = "done"] ELSE clPc
-     ELSE UNCHANGED <<lsOpen, fileOpen, clPc>>
+     ELSE UNCHANGED <<lsOpen, fileOpen, clPc, fails>>
   /\ store' = None
   /\ dPc' = "remove"
   /\ Rec("DelLock", 0)
-  /\ UNCHANGED <<shardLock, nextLS, lsReaders, lsWriter, rPc, rLs, dLs, dRound, dirExists>>
+  /\ UNCHANGED <<shardLock, nextLS, lsReaders, lsWriter, rPc, rLs, dLs, dRound, dirExists, fails>>
 
 \* [del.remove]  os.RemoveAll(shardDir)
 DelRemove ==
   /\ dPc = "remove" /\ store' = None /\ dirExists' = FALSE /\ dPc' = "unlock"
   /\ Rec("DelRemove", 0)
-  /\ UNCHANGED <<shardLock, nextLS, lsOpen, lsReaders, lsWriter, lsWaiting, clPc, rPc, rLs, dLs, dRound, fileOpen>>
+  /\ UNCHANGED <<shardLock, nextLS, lsOpen, lsReaders, lsWriter, lsWaiting, clPc, rPc, rLs, dLs, dRound, fileOpen, fails>>
 
 DelUnlock ==
   /\ dPc = "unlock" /\ shardLock' = "free"
   /\ dRound' = dRound + 1
   /\ dPc' = "start"
   /\ Rec("DelUnlock", 0)
-  /\ UNCHANGED <<store, nextLS, lsOpen, lsReaders, lsWriter, lsWaiting, clPc, rPc, rLs, dLs, fileOpen, dirExists>>
+  /\ UNCHANGED <<store, nextLS, lsOpen, lsReaders, lsWriter, lsWaiting, clPc, rPc, rLs, dLs, fileOpen, dirExists, fails>>
 
 ---------------------------------------------------------------------------
 ReqsDone == \A r \in Reqs : rPc[r] \in {"ok", "err"}
